@@ -520,3 +520,149 @@ func c16RunMergeFail(ctx *Ctx, c *xt.T) (*xt.T, Verdict) {
 	}
 	return xt.N(xt.L(1)), OK()
 }
+
+// ---------------------------------------------------------------- kind 8: progress trackers
+
+// c16RunProgress runs DiffTables (mode 0) or a Merger (mode 1) with a real tick period over a
+// store whose Get is slow, consumes the data and the progress channel with the loop shape of
+// cmd/wrgl (diff_cmd.go collectChanges / merge_cmd.go collectMergeConflicts), waits gapUs (the
+// progress-bar teardown that cmd/wrgl does between the loop and Stop) and calls Stop / Error /
+// Close under a watchdog.
+func c16RunProgress(ctx *Ctx, c *xt.T) (*xt.T, Verdict) {
+	mode, nrows := int(c16Kid(c, 1).N), int(c16Kid(c, 2).N)
+	period := time.Duration(c16Kid(c, 3).N) * time.Microsecond
+	slowGet, gap, reps := int(c16Kid(c, 4).N), time.Duration(c16Kid(c, 5).N)*time.Microsecond, int(c16Kid(c, 6).N)
+	if reps < 1 {
+		reps = 1
+	}
+	mk := func(mod, val int) []c16Row {
+		r := make([]c16Row, nrows)
+		for i := range r {
+			r[i] = c16Row{i + 1, 1}
+			if mod > 0 && i%mod == 0 {
+				r[i].V = val
+			}
+		}
+		return r
+	}
+	db := c16NewStore(1, 0, 0)
+	bt := c16StoreTable(db, ctx.Tmp, mk(0, 0), nil)
+	lts := []*c16Tbl{c16StoreTable(db, ctx.Tmp, mk(3, 2), nil), c16StoreTable(db, ctx.Tmp, mk(5, 3), nil)}
+	db.mu.Lock()
+	db.slowGetUs = slowGet
+	db.mu.Unlock()
+	v := OK()
+	bad := func(class, format string, a ...interface{}) {
+		if v.OK {
+			v = Fail(class, format, a...)
+		}
+	}
+	guard := func(what string, f func()) bool {
+		finished, pv := c16Guard(5*time.Second, f)
+		if !finished {
+			bad("progress-stop-hang", "%s did not return within 5s (tick period %v, store Get %dus, %d rows)", what, period, slowGet, nrows)
+			return false
+		}
+		if pv != nil {
+			bad("panic", "%s panicked: %v", what, pv)
+			return false
+		}
+		return true
+	}
+	for rep := 0; rep < reps && v.OK; rep++ {
+		base := runtime.NumGoroutine()
+		ticks, items := 0, 0
+		if mode == 0 {
+			errChan := make(chan error, 1)
+			diffChan, pt := diff.DiffTables(db, db, lts[0].T, bt.T, lts[0].Idx, bt.Idx, errChan, logr.Discard(), diff.WithProgressInterval(period))
+			progChan := pt.Start()
+			ok := guard("the diff loop", func() {
+			mainLoop:
+				for {
+					select {
+					case <-progChan:
+						ticks++
+					case _, ok := <-diffChan:
+						if !ok {
+							break mainLoop
+						}
+						items++
+					}
+				}
+			})
+			if !ok {
+				break
+			}
+			time.Sleep(gap)
+			if !guard("Tracker.Stop() after the diff", pt.Stop) {
+				break
+			}
+			close(errChan)
+			if err, ok := <-errChan; ok {
+				bad("unexpected-error", "diff reported %v", err)
+			}
+		} else {
+			hs, err := index.NewHashSet(misc.NewBuffer(nil), 0)
+			if err != nil {
+				panic(err)
+			}
+			col, err := merge.NewCollector(db, bt.T, hs)
+			if err != nil {
+				panic(err)
+			}
+			buf, err := diff.BlockBufferWithSingleStore(db, []*objects.Table{bt.T, lts[0].T, lts[1].T})
+			if err != nil {
+				panic(err)
+			}
+			m, err := merge.NewMerger(db, col, buf, period, bt.T, []*objects.Table{lts[0].T, lts[1].T}, bt.Sum, [][]byte{lts[0].Sum, lts[1].Sum}, logr.Discard())
+			if err != nil {
+				panic(err)
+			}
+			mch, err := m.Start()
+			if err != nil {
+				bad("unexpected-error", "Merger.Start: %v", err)
+				break
+			}
+			pch := m.Progress.Start()
+			ok := guard("the merge loop", func() {
+			mainLoop:
+				for {
+					select {
+					case <-pch:
+						ticks++
+					case _, ok := <-mch:
+						if !ok {
+							break mainLoop
+						}
+						items++
+					}
+				}
+			})
+			if !ok {
+				break
+			}
+			time.Sleep(gap)
+			if !guard("Merger.Progress.Stop()", m.Progress.Stop) {
+				break
+			}
+			var merr error
+			if !guard("Merger.Error()", func() { merr = m.Error() }) {
+				break
+			}
+			if merr != nil {
+				bad("unexpected-error", "merge reported %v", merr)
+			}
+			if !guard("Merger.Close()", func() { m.Close() }) {
+				break
+			}
+		}
+		ctx.Count("progress_runs")
+		if ticks > 0 {
+			ctx.Count("progress_runs_with_ticks")
+		}
+		if ok, now := c16Settled(base); !ok {
+			bad("progress-goroutine-leak", "%d goroutines before, %d still alive 1s after Stop() returned: the tracker goroutine is parked in `t.c <- Event{}` (a tick fired after the consumer's last receive; period %v, %d ticks and %d items received)", base, now, period, ticks, items)
+		}
+	}
+	return xt.N(xt.L(0)), v
+}
